@@ -305,4 +305,77 @@ def tbGlwePacker (be : BE) (n : Nat) (res : G) (k : K) : Nat :=
 def treeGlwePackerAdd (be : BE) (n : Nat) (res : G) (k : K) : AllocTree :=
   .need (tbGlwePacker be n res k) (.alt (treeGlweNormalize n) (treePackStep be n res k))
 
+/-! ### relinearisation, cswap -/
+
+/-- glwe_tensor_relinearize_tmp_bytes(res, a, tsk): `a` = the tensor (size, radix), `t` = the tensor key
+(`rank_in = pairs`, `rank_out = rank`) -/
+def tbGlweTensorRelinearize (be : BE) (n : Nat) (a : G) (t : K) : Nat :=
+  let cols := t.rankOut + 1
+  let aD := ceilDiv (a.size * a.b2k) t.b2k
+  let conv := if a.b2k ≠ t.b2k then vecBytes n 1 aD + normTmp n else 0
+  let lvl0 := dftBytes be n t.rankIn aD
+  let main := dftBytes be n cols t.size + max (max (tbGglweProduct be n aD t) conv) (bigNormTmp be n)
+  lvl0 + max conv main
+
+/-- `glwe_tensor_relinearize(res, a, tsk, tsk_size)`: `tskSize` is the caller-chosen number of key limbs used -/
+def treeGlweTensorRelinearize (be : BE) (n tskSize : Nat) (a : G) (t : K) : AllocTree :=
+  let cols := t.rankOut + 1
+  let aD := ceilDiv (a.size * a.b2k) t.b2k
+  let conv : AllocTree := if a.b2k ≠ t.b2k then .take (vecBytes n 1 aD) (treeNormalize n) else .done
+  .need (tbGlweTensorRelinearize be n a t)
+    (.take (dftBytes be n t.rankIn aD)
+      (.alt conv
+        (.take (dftBytes be n cols tskSize)
+          (altList [treeGglweProduct be n t.rankIn aD cols t, conv, loop cols (treeBigNormalize be n)]))))
+
+/-- cswap_tmp_bytes(res_a, res_b, selector) -/
+def tbCswap (be : BE) (n : Nat) (ra rb : G) (k : K) : Nat :=
+  let tmpC : G := ⟨k.rankOut, ceilDiv (max ra.maxK rb.maxK) k.b2k, k.b2k⟩
+  dftBytes be n (k.rankOut + 1) k.size + max (tbExtInternal be n tmpC k + tmpC.bytes n) (bigNormTmp be n) +
+    (if ra.b2k ≠ k.b2k then (ra.conv k.b2k).bytes n + (rb.conv k.b2k).bytes n else 0) + bigBytes be n 1 k.size
+
+/-- the common part of `cswap` once both operands are in the selector's radix -/
+def treeCswapCore (be : BE) (n : Nat) (ra rb : G) (k : K) : AllocTree :=
+  let tmpC : G := ⟨k.rankOut, ceilDiv (max ra.maxK rb.maxK) k.b2k, k.b2k⟩
+  .take (dftBytes be n (k.rankOut + 1) k.size)
+    (.alt (.take (tmpC.bytes n) (treeExtInternal be n (k.rankOut + 1) tmpC k))
+      (.take (bigBytes be n 1 k.size) (loop (ra.rank + 1) (treeBigNormalize be n))))
+
+/-- `cswap(res_a, res_b, s)` (no entry assertion) -/
+def treeCswap (be : BE) (n : Nat) (ra rb : G) (k : K) : AllocTree :=
+  if ra.b2k = k.b2k then treeCswapCore be n ra rb k
+  else .take ((ra.conv k.b2k).bytes n) (.take ((rb.conv k.b2k).bytes n) (.alt (treeGlweNormalize n) (treeCswapCore be n ra rb k)))
+
+/-! ### poulpy-ckks, operations built from modelled core operations -/
+
+/-- ckks_rotate_tmp_bytes / ckks_conjugate_tmp_bytes = glwe_automorphism_tmp_bytes(ct, ct, key) -/
+def tbCkksRotate (be : BE) (n : Nat) (ct : G) (k : K) : Nat := tbGlweAutomorphism be n ct ct k
+/-- `ckks_rotate_into/_assign`, `ckks_conjugate_into/_assign`: optionally a left shift, then `glwe_automorphism(_assign)` -/
+def treeCkksRotate (be : BE) (n : Nat) (ct : G) (k : K) : AllocTree := .alt (treeGlweLsh n) (treeGlweAutomorphism be n ct ct k)
+
+/-- ckks_add_pt_vec_znx_tmp_bytes / ckks_sub_pt_vec_znx_tmp_bytes / ckks_sub_tmp_bytes -/
+def tbCkksPtVecZnx (n : Nat) : Nat := max (max (tbGlweShift n) (rshTmp n)) (tbGlweNormalize n)
+def treeCkksPtVecZnx (n : Nat) : AllocTree := altList [treeGlweLsh n, treeRsh n, treeGlweNormalize n]
+
+/-- ckks_add_pt_vec_rnx_tmp_bytes / ckks_sub_pt_vec_rnx_tmp_bytes: a plaintext of `ptSize` limbs + the znx form -/
+def tbCkksPtVecRnx (n ptSize : Nat) : Nat := vecBytes n 1 ptSize + tbCkksPtVecZnx n
+
+/-- ckks_extract_pt_znx_tmp_bytes -/
+def tbCkksExtractPt (n : Nat) : Nat := max (rshTmp n) (lshTmp n)
+
+/-- ckks_encrypt_sk_tmp_bytes -/
+def tbCkksEncryptSk (be : BE) (n size : Nat) : Nat := max (tbGlweEncryptSk be n size) (tbCkksPtVecZnx n)
+/-- ckks_decrypt_tmp_bytes -/
+def tbCkksDecrypt (be : BE) (n size : Nat) : Nat := vecBytes n 1 size + max (tbGlweDecrypt be n size) (tbCkksExtractPt n)
+
+/-- `ckks_encrypt_sk`: `glwe_encrypt_sk`, then the plaintext is added (`ckks_add_pt_vec_znx` form) -/
+def treeCkksEncryptSk (be : BE) (n : Nat) (ct : G) : AllocTree := .alt (treeGlweEncryptSk be n ct) (treeCkksPtVecZnx n)
+/-- `ckks_decrypt`: a plaintext, `glwe_decrypt`, then `ckks_extract_pt_znx` (a shift) on the remainder -/
+def treeCkksDecrypt (be : BE) (n : Nat) (ct : G) : AllocTree :=
+  .take (vecBytes n 1 ct.size) (.alt (treeGlweDecrypt be n ct) (altList [treeRsh n, treeLsh n]))
+
+/-- ckks_mul_pt_const_tmp_bytes(res, a, b): `bSize = ceil(b.min_k(res.base2k) / res.base2k)` -/
+def tbCkksMulPtConst (be : BE) (n : Nat) (res a : G) (bSize : Nat) : Nat :=
+  res.bytes n + max (tbGlweMulConst be n res a bSize) (tbGlweRotate n)
+
 end Scratch
